@@ -19,6 +19,7 @@ import numpy as np
 import pandas as pd
 
 from common import coq_eval, frac, close, qlit, TOL_ARITH, TOL_FIT
+import est_common as ec
 
 PROP_FILE = 'theories/Properties/C12.v'
 MODEL_FILES = ['theories/Model/Icg.v', 'theories/Model/Survival.v']
@@ -595,6 +596,8 @@ def surv_part(ctx, fails, cases=None):
             fitted = np.asarray(g._outcome_model.predict(base), dtype=float)
             for trt, _ in TR:
                 g.fit(trt)
+                if ec.should_poke(df):
+                    ec.poke(g)            # plot() / displays between fit() and reading the stored curve
                 pdf = g.predicted_df
                 gg = base.copy()
                 if trt != 'natural':
